@@ -73,7 +73,7 @@ impl Parse for OverrideEntryPoint {
         let msg_type = match ty.to_string().as_str() {
             "exec" =>  MsgType::Exec,
             "instantiate" =>  MsgType::Instantiate,
-            "query" =>  MsgType::Instantiate,
+            "query" =>  MsgType::Query,
             "migrate" => MsgType::Migrate,
             "reply" => MsgType::Reply,
             "sudo" =>  MsgType::Sudo,
